@@ -1395,6 +1395,196 @@ theorem node_trackM (ha : TrackM oa M Ta Ba ra) (hb : TrackM ob M Tb Bb rb) (hM 
       simp only [nodeOps_atT, nodeOps_adjust, nodeAtT, p3, p5, p6]
       cases s.useA <;> cases s.aval <;> cases s.bval <;> simp [ha.atTAdjust, hb.atTAdjust] }
 
+/-- the status of a side right after the constructor's `Next` -/
+theorem childSt_of_init {γ : Type} {o : Ops γ} {T : γ → List Sample → Prop} {B : γ → Prop}
+    {c : γ} {L : List Sample} (hi : TrackInit o T B c L) : ChildSt o T B (o.next c).1 (o.next c).2 L := by
+  by_cases hL : L = []
+  · rcases hi.nextB hL with h | h
+    · exact Or.inr (Or.inr ⟨hL, h, hi.nextBad⟩)
+    · cases hok : (o.next c).2 with
+      | true => exact Or.inr (Or.inl ⟨hL, rfl, h⟩)
+      | false => exact Or.inr (Or.inr ⟨hL, rfl, hi.nextBad⟩)
+  · obtain ⟨h1, h2⟩ := hi.nextT hL
+    exact Or.inl ⟨hL, h1, h2⟩
+
+/-- `newDedupSeriesIterator` over two fresh iterators that will track `La`, `Lb` up to `M` -/
+theorem node_trackInit (ha : TrackM oa M Ta Ba ra) (hb : TrackM ob M Tb Bb rb) {a : α} {b : β}
+    {La Lb : List Sample} (ia : TrackInit oa Ta Ba a La) (ib : TrackInit ob Tb Bb b Lb) :
+    TrackInit (nodeOps oa ob true) (nodeT oa ob Ta Ba Tb Bb) (nodeB oa ob Ta Ba Tb Bb)
+      (nodeNew oa ob a b) (pm2 minT La Lb) := by
+  have hst : NodeSt oa ob Ta Ba Tb Bb (nodeNew oa ob a b) La Lb :=
+    ⟨rfl, childSt_of_init ia, childSt_of_init ib⟩
+  have hLa : dropLt (minT + 1 + 0) La = La := by
+    apply dropLt_all_ge
+    intro x hx
+    have := ha.tLower _ _ (childSt_mem_T hst.2.1 hx) x hx
+    omega
+  have hLb : dropLt (minT + 1 + 0) Lb = Lb := by
+    apply dropLt_all_ge
+    intro x hx
+    have := hb.tLower _ _ (childSt_mem_T hst.2.2 hx) x hx
+    omega
+  obtain ⟨⟨t1, t2⟩, _⟩ := nodeNext_track ha hb (nodeNew oa ob a b) hst rfl
+  have hl : (nodeNew oa ob a b).lastT = minT := rfl
+  have hpa : (nodeNew oa ob a b).penA = 0 := rfl
+  have hpb : (nodeNew oa ob a b).penB = 0 := rfl
+  rw [hl, hpa, hpb, hLa, hLb] at t1 t2
+  refine ⟨fun hne => t1 hne, fun he => ?_, ?_⟩
+  · rcases t2 he with ⟨h, _⟩ | ⟨_, h⟩
+    · exact Or.inl h
+    · exact Or.inr h
+  · show nodeOk oa ob (nodeNext oa ob (nodeNew oa ob a b)).1
+    by_cases hne : pm2 minT La Lb = []
+    · rcases t2 hne with ⟨_, h⟩ | ⟨_, h⟩
+      · exact nodeOk_of_st ha hb h
+      · exact nodeOk_of_st ha hb h.1
+    · obtain ⟨_, la, lb, h, _⟩ := t1 hne
+      exact nodeOk_of_st ha hb h
+
+/-! ### reading a node with `Next` -/
+
+/-- `Next` until `ValNone` from a node that stands beyond `M`: only samples beyond `M` -/
+theorem goB (ha : TrackM oa M Ta Ba ra) (hb : TrackM ob M Tb Bb rb) (hM : minT ≤ M) :
+    ∀ (n : Nat) (s : Node α β), nodeB oa ob Ta Ba Tb Bb s → nodeRem ra rb s + 1 ≤ n →
+      ∃ o, drainChecked.go (nodeOps oa ob true) n s = some o ∧ ∀ x ∈ o, M < x.t := by
+  intro n
+  induction n with
+  | zero => intro s _ hn; omega
+  | succ n ih =>
+    intro s hB hn
+    have hpos := nodePos_of_B hB
+    obtain ⟨hst, hsame, _⟩ := hB
+    have hlt := nodeRem_next_lt ha hb hst hpos
+    obtain ⟨⟨_, t2⟩, _⟩ := nodeNext_track ha hb s hst hsame
+    have hnil : pm2 s.lastT (dropLt (s.lastT + 1 + s.penA) []) (dropLt (s.lastT + 1 + s.penB) []) = [] := by
+      simp [pm2]
+    unfold drainChecked.go
+    simp only [nodeOps_next]
+    rcases t2 hnil with ⟨hf, hst'⟩ | ⟨ht, hB'⟩
+    · have hok := nodeOk_of_st ha hb hst'
+      unfold nodeOk at hok
+      simp only [nodeOps_bad, hok, Bool.false_eq_true, if_false, hf]
+      exact ⟨[], rfl, by simp⟩
+    · have hok := nodeOk_of_st ha hb hB'.1
+      unfold nodeOk at hok
+      obtain ⟨x, hxs, _, hxM⟩ := (node_trackM ha hb hM).bAt _ hB'
+      simp only [nodeOps_bad, hok, Bool.false_eq_true, if_false, ht, if_true]
+      rw [hxs]
+      obtain ⟨o, ho, hall⟩ := ih _ hB' (by omega)
+      refine ⟨x :: o, by rw [ho]; rfl, ?_⟩
+      intro y hy
+      rcases List.mem_cons.mp hy with rfl | hy
+      · exact hxM
+      · exact hall y hy
+
+theorem nodeRem_next_le (ha : TrackM oa M Ta Ba ra) (hb : TrackM ob M Tb Bb rb) {s : Node α β}
+    {la lb : List Sample} (hst : NodeSt oa ob Ta Ba Tb Bb s la lb) (hsame : s.lastIsA = s.useA) :
+    nodeRem ra rb (nodeNext oa ob s).1 ≤ nodeRem ra rb s := by
+  rw [(nodeNext_track ha hb s hst hsame).2, nodeRem_step]
+  have h1 := remOf_stepA_le ha hst.2.1
+  have h2 := remOf_stepB_le hb hst.2.2
+  unfold nodeRem; omega
+
+/-- `Next` until `ValNone` from a node that follows `L`: the rest of `L`, then only samples beyond `M` -/
+theorem goT (ha : TrackM oa M Ta Ba ra) (hb : TrackM ob M Tb Bb rb) (hM : minT ≤ M) :
+    ∀ (n : Nat) (s : Node α β) (L : List Sample), nodeT oa ob Ta Ba Tb Bb s L →
+      nodeRem ra rb s + 1 ≤ n →
+      ∃ extra, drainChecked.go (nodeOps oa ob true) n s = some (L.tail ++ extra) ∧ ∀ x ∈ extra, M < x.t := by
+  intro n
+  induction n with
+  | zero => intro s L _ hn; omega
+  | succ n ih =>
+    intro s L hT hn
+    obtain ⟨_, _, hst0, hpos⟩ := nodePos_of_T ha hb hT
+    have hlt := nodeRem_next_lt ha hb hst0 hpos
+    obtain ⟨la, lb, hst, hsame, hpen, cur, hcur, hct, hL⟩ := hT
+    obtain ⟨⟨t1, t2⟩, _⟩ := nodeNext_track ha hb s hst hsame
+    unfold drainChecked.go
+    simp only [nodeOps_next]
+    rw [hL]
+    simp only [List.tail_cons]
+    by_cases hF : pm2 s.lastT (dropLt (s.lastT + 1 + s.penA) la) (dropLt (s.lastT + 1 + s.penB) lb) = []
+    · rw [hF]
+      rcases t2 hF with ⟨hf, hst'⟩ | ⟨ht, hB'⟩
+      · have hok := nodeOk_of_st ha hb hst'
+        unfold nodeOk at hok
+        simp only [nodeOps_bad, hok, Bool.false_eq_true, if_false, hf]
+        exact ⟨[], rfl, by simp⟩
+      · have hok := nodeOk_of_st ha hb hB'.1
+        unfold nodeOk at hok
+        obtain ⟨x, hxs, _, hxM⟩ := (node_trackM ha hb hM).bAt _ hB'
+        simp only [nodeOps_bad, hok, Bool.false_eq_true, if_false, ht, if_true]
+        rw [hxs]
+        obtain ⟨o, ho, hall⟩ := goB ha hb hM n _ hB' (by omega)
+        refine ⟨x :: o, by rw [ho]; rfl, ?_⟩
+        intro y hy
+        rcases List.mem_cons.mp hy with rfl | hy
+        · exact hxM
+        · exact hall y hy
+    · obtain ⟨ht, hT'⟩ := t1 hF
+      have hok := (node_trackM ha hb hM).tBad _ _ hT'
+      have hat := (node_trackM ha hb hM).tAtS _ _ hT'
+      simp only [nodeOps_bad] at hok
+      simp only [nodeOps_bad, hok, Bool.false_eq_true, if_false, ht, if_true]
+      rw [hat]
+      obtain ⟨extra, he, hall⟩ := ih _ _ hT' (by omega)
+      cases hFl : pm2 s.lastT (dropLt (s.lastT + 1 + s.penA) la) (dropLt (s.lastT + 1 + s.penB) lb) with
+      | nil => exact absurd hFl hF
+      | cons f0 ft =>
+        rw [hFl] at he
+        simp only [List.head?_cons, List.tail_cons] at he ⊢
+        refine ⟨extra, by rw [he]; rfl, hall⟩
+
+/-- **Reading a fresh dedup node with `Next`**: the list it follows, then only samples beyond `M`. -/
+theorem node_drain_track (ha : TrackM oa M Ta Ba ra) (hb : TrackM ob M Tb Bb rb) (hM : minT ≤ M)
+    {a : α} {b : β} {La Lb : List Sample} (ia : TrackInit oa Ta Ba a La) (ib : TrackInit ob Tb Bb b Lb) :
+    ∃ extra, drainChecked { σ := Node α β, ops := nodeOps oa ob true, st := nodeNew oa ob a b } =
+        some (pm2 minT La Lb ++ extra) ∧ ∀ x ∈ extra, M < x.t := by
+  have hst : NodeSt oa ob Ta Ba Tb Bb (nodeNew oa ob a b) La Lb :=
+    ⟨rfl, childSt_of_init ia, childSt_of_init ib⟩
+  have hi := node_trackInit ha hb ia ib
+  have hremle := nodeRem_next_le ha hb hst rfl
+  have hfuel := nodeRem_le_fuel ha hb hst
+  unfold drainChecked
+  show ∃ extra, drainChecked.go (nodeOps oa ob true) ((nodeFuel oa ob (nodeNew oa ob a b) + 1) + 1) _ = _ ∧ _
+  rw [drainChecked.go]
+  have hbad := hi.nextBad
+  simp only [nodeOps_next] at hbad ⊢
+  simp only [hbad, Bool.false_eq_true, if_false]
+  have hn : nodeRem ra rb (nodeNext oa ob (nodeNew oa ob a b)).1 + 1 ≤ nodeFuel oa ob (nodeNew oa ob a b) + 1 := by
+    unfold nodeFuel; omega
+  by_cases hL : pm2 minT La Lb = []
+  · rw [hL]
+    simp only [List.nil_append]
+    rcases hi.nextB hL with hf | hB
+    · simp only [nodeOps_next] at hf
+      simp only [hf, Bool.false_eq_true, if_false]
+      exact ⟨[], rfl, by simp⟩
+    · simp only [nodeOps_next] at hB
+      by_cases hok : (nodeNext oa ob (nodeNew oa ob a b)).2 = true
+      · simp only [hok, if_true]
+        obtain ⟨x, hxs, _, hxM⟩ := (node_trackM ha hb hM).bAt _ hB
+        rw [hxs]
+        obtain ⟨o, ho, hall⟩ := goB ha hb hM _ _ hB hn
+        refine ⟨x :: o, by rw [ho]; rfl, ?_⟩
+        intro y hy
+        rcases List.mem_cons.mp hy with rfl | hy
+        · exact hxM
+        · exact hall y hy
+      · simp only [hok, Bool.false_eq_true, if_false]
+        exact ⟨[], rfl, by simp⟩
+  · obtain ⟨ht, hT⟩ := hi.nextT hL
+    simp only [nodeOps_next] at ht hT
+    simp only [ht, if_true]
+    rw [(node_trackM ha hb hM).tAtS _ _ hT]
+    obtain ⟨extra, he, hall⟩ := goT ha hb hM _ _ _ hT hn
+    cases hLl : pm2 minT La Lb with
+    | nil => exact absurd hLl hL
+    | cons f0 ft =>
+      rw [hLl] at he
+      simp only [List.head?_cons, List.tail_cons] at he ⊢
+      exact ⟨extra, by rw [he]; rfl, hall⟩
+
 end node
 
 end Thanos.Dedup
